@@ -115,6 +115,18 @@ def specs(tier, seed):
                              "maxlen": [None, 200, 120][(i // 4) % 3]},
                     "relay": {"hold_up": [{"useq": 0, "ufrag": 0, "delay_us": hold, "count": 1}]}, "pkts": pk,
                     "dur_ms": 15000, "label": "upwrap%d" % i})
+    # beyond the 16-fragment limit with content chosen against it: a small hostname limit makes an ordinary-sized upstream
+    # packet need 17 fragments; its image carries a complete zlib stream of a never-offered frame exactly where fragment
+    # 16 (the one the 4-bit fragment number cannot express) begins.  The packet may be dropped - never mis-reassembled.
+    for i in range(10 if tier == "quick" else 80):
+        ml = [100, 84, 120, 110, 92][i % 5]
+        lead = 1 + i % 3            # the crafted packet is the 2nd / 3rd / 4th of the session: even and odd sequence numbers
+        pk = [[300 + 400 * j, "C0", "S", "text", 30 + j] for j in range(lead)] + \
+            [[300 + 400 * lead, "C0", "S", "embedfit:%d" % [16, 16, 17, 15][i % 4], 200],
+             [6000, "C0", "S", "rand", 60], [6500, "S", "C0", "rand", 200]]
+        out.append({"seed": seed * 100000 + 99500 + i,
+                    "sess": {"qtype": ["NULL", "TXT", "CNAME", "MX"][(i // 2) % 4], "lazy": i % 2, "maxlen": ml},
+                    "relay": {}, "pkts": pk, "dur_ms": 15000, "label": "frag17-%d" % i})
     return common.fit_frag(out)
 
 
